@@ -561,6 +561,36 @@ func c13Encrypted(c *Ctx) {
 					}
 				}
 			})
+			if !okLit {
+				// the message is built by a helper of the package that is handed the ciphertext:
+				// its EncryptedKeyset field is the parameter bound to the AEAD's result here
+				allInstrs(f, func(ins ssa.Instruction) {
+					hc, ok := ins.(*ssa.Call)
+					if !ok {
+						return
+					}
+					h := hc.Call.StaticCallee()
+					if h == nil || h.Blocks == nil || h.Pkg != f.Pkg {
+						return
+					}
+					for i, a := range hc.Call.Args {
+						if vc, vi := guard.CallOf(a); vc != call || vi != 0 || i >= len(h.Params) {
+							continue
+						}
+						allInstrs(h, func(i2 ssa.Instruction) {
+							if base, fld, val, ok := guard.StoreField(i2); ok && fld == "EncryptedKeyset" && core.TypeID(base.Type()) == "proto/tink_go_proto.EncryptedKeyset" && guard.Strip(val) == ssa.Value(h.Params[i]) {
+								// and what f returns is the helper's result
+								for _, ret := range guard.SuccessReturns(f) {
+									if rc, ri := guard.CallOf(ret.Results[0]); rc == hc && ri == 0 {
+										okLit = true
+										c13EncryptHelpers[h] = true
+									}
+								}
+							}
+						})
+					}
+				})
+			}
 			r.Check(okLit, "C13.encrypted", key+"/output", p.FuncPos(f), "the EncryptedKeyset message does not carry the AEAD's ciphertext", "EncryptedKeyset.EncryptedKeyset = result of Encrypt")
 		}
 	}
